@@ -36,11 +36,11 @@ COMPONENTS = {
 ASSUMPTIONS = [
   'crash model = process death: completed file operations persist, the in-flight one did not happen or (write) left a prefix; power-loss (un-fsynced data loss) is outside the property and not modelled',
   'SimDisk/SimGFile semantics match os / tensorflow.io.gfile on the operations flax uses (differentially tested by sim/selftests.py against a real directory)',
-  'two spellings of one number, step 0 together with keep_every_n_steps, and prefixes that are prefixes of each other are not generated (corners the property does not pin down)',
+  'two spellings of one number and prefixes that are prefixes of each other are not generated (corners the property does not pin down)',
   'with overwrite=True a crash in the middle of removing several newer steps may leave an intermediate newer step as latest; the oracle then requires latest to be a complete previously committed step (narrow reading, see DESIGN.md)',
   'save_checkpoint_multiprocess is covered on one host without multi-process arrays only; multi-host arrays, GCS paths, Orbax AsyncCheckpointer are not covered',
 ]
-PROBES = ['async_save_failed_with_ioerror', 'entry_multiprocess', 'legacy_debris_in_orbax_dir', 'source_mutated_after_async_save', 'restore_by_path', 'orbax_histories', 'leftover_tmp_after_crash', 'crash_after_commit', 'crash_before_commit', 'retry_rejected_committed', 'overwrite_removed_newer', 'keep_every_retained', 'chunked_leaf', 'async_latest_in_flight', 'sweep_points', 'policy_error_expected', 'torn_write', 'ioerror_runs']
+PROBES = ['orbax_debris_in_legacy_dir', 'step0_with_keep_every', 'async_save_failed_with_ioerror', 'entry_multiprocess', 'legacy_debris_in_orbax_dir', 'source_mutated_after_async_save', 'restore_by_path', 'orbax_histories', 'leftover_tmp_after_crash', 'crash_after_commit', 'crash_before_commit', 'retry_rejected_committed', 'overwrite_removed_newer', 'keep_every_retained', 'chunked_leaf', 'async_latest_in_flight', 'sweep_points', 'policy_error_expected', 'torn_write', 'ioerror_runs']
 
 GOOD_PREFIXES = ['checkpoint_', 'ckpt', 'a_b_', 'run1_', 'model.x']
 BAD_PREFIXES = ['m-', 'v2.', 'run1']  # end in '-', '.', digit: were glued to the step before fix 943634b
@@ -143,8 +143,12 @@ def generate(rs, tier):
     # the directory may have been used with the legacy back-end before: an interrupted legacy save leaves <prefix>tmp
     knobs['legacy_debris'] = g.random() < 0.3
   every_hist = g.choice([None, None, 2, 3, 5])
-  if every_hist:
-    knobs['pool'] = pool = [p for p in pool if p != 0] or [1, 2, 3]
+  # (step 0 stays in the pool also with keep_every_n_steps: the first retained-by-spacing checkpoint may be step 0,
+  #  which the retention loop skipped before fix "keep_every_n_steps never retained step 0")
+  if knobs['backend'] == 'legacy' and g.random() < 0.12:
+    # the directory was used with the Orbax back-end before: an interrupted Orbax save / removal left a temporary
+    # directory '<prefix><step>.orbax-checkpoint-tmp[-deleting]' for a step that was never committed
+    knobs['orbax_debris'] = dict(step=g.choice(sorted(pool)[2:] or pool), deleting=g.random() < 0.3)
   ops = []
   nops = g.randrange(3, 13) if knobs['backend'] == 'legacy' else g.randrange(2, 8)
   # saves mostly ascend so that histories make progress; some go back / repeat to hit the policy errors
@@ -368,6 +372,10 @@ class World:
     if k.get('legacy_debris') and not sub and model is None:
       self.disk.put_file(self.dir + '/' + self.prefix + 'tmp', b'torn legacy checkpoint')
       res.probe('legacy_debris_in_orbax_dir')
+    od = k.get('orbax_debris')
+    if od and not sub and model is None:
+      self.disk.put_file(f"{self.dir}/{self.prefix}{od['step']}{ORBAX_TMP}{'-deleting' if od['deleting'] else '-1700000000'}/_METADATA", b'{}')
+      res.probe('orbax_debris_in_legacy_dir')
 
   # -- plumbing
   def install(self):
@@ -407,7 +415,9 @@ class World:
     return [n for n in self.disk.listdir(self.dir) if n.startswith(self.prefix)]
 
   def is_debris(self, n):
-    return n == self.prefix + 'tmp' if self.backend == 'legacy' else (ORBAX_TMP in n or (bool(self.k.get('legacy_debris')) and n == self.prefix + 'tmp'))
+    if self.backend == 'legacy':
+      return n == self.prefix + 'tmp' or (bool(self.k.get('orbax_debris')) and ORBAX_TMP in n)
+    return ORBAX_TMP in n or (bool(self.k.get('legacy_debris')) and n == self.prefix + 'tmp')
 
   # -- oracle (a): after a completed save / at quiescence
   def check_complete(self, where):
@@ -416,6 +426,8 @@ class World:
       # an interrupted save may leave its temporary file behind until the next save completes (legacy);
       # Orbax temporary directories are not checkpoints and nobody promises to collect them
       names = [n for n in names if not self.is_debris(n)]
+    elif self.k.get('orbax_debris'):
+      names = [n for n in names if ORBAX_TMP not in n]  # never a checkpoint by flax's own listing rule; nobody collects it
     want = sorted(self.prefix + str(s) for s in self.model)
     if sorted(names) != want:
       extra = sorted(set(names) - set(want))
@@ -681,6 +693,8 @@ class World:
       res.probe('overwrite_removed_newer')
     if op['every'] and len(after) > op['keep']:
       res.probe('keep_every_retained')
+      if 0 in after and len(after) > op['keep'] and min(after) == 0:
+        res.probe('step0_with_keep_every')
     new_model = {s: (ent if s == step else self.model[s]) for s in after}
     self.debris_ok = False
     if self.asyn:
@@ -923,7 +937,7 @@ class World:
       finally:
         w.sched.shutdown()
         self._reinstall()
-      mine = {p: v for p, v in self.disk.files.items() if p.startswith(self.dir + '/' + self.prefix)}  # SimDisk only (async is legacy-only)
+      mine = {p: v for p, v in self.disk.files.items() if p.startswith(self.dir + '/' + self.prefix) and ORBAX_TMP not in p}  # SimDisk only (async is legacy-only)
       if mine != w.disk.files:
         raise Violation('async-differs-from-sync', f'async saves left {sorted(mine)}, the same saves done synchronously leave {sorted(w.disk.files)} (or contents differ)')
 
